@@ -214,6 +214,68 @@ func firstDiff(a, b []string) string {
 	return ""
 }
 
+// Extensions an application registers itself through the public registry (as _examples/custom_stanza does). Their
+// local names are those of the core children of <message/> and <presence/>; only the namespace tells them apart.
+const c01AppNS = "urn:example:appext:"
+
+type c01XBody struct {
+	stanza.MsgExtension
+	XMLName xml.Name `xml:"urn:example:appext:rich body"`
+	Format  string   `xml:"format,attr,omitempty"`
+	Text    string   `xml:",chardata"`
+}
+type c01XSubject struct {
+	stanza.MsgExtension
+	XMLName xml.Name `xml:"urn:example:appext:rich subject"`
+	Text    string   `xml:",chardata"`
+}
+type c01XThread struct {
+	stanza.MsgExtension
+	XMLName xml.Name `xml:"urn:example:appext:rich thread"`
+	Parent  string   `xml:"parent,attr,omitempty"`
+}
+type c01XError struct {
+	stanza.MsgExtension
+	XMLName xml.Name `xml:"urn:example:appext:app error"`
+	Code    string   `xml:"code,attr,omitempty"`
+	Detail  string   `xml:"detail,omitempty"`
+}
+type c01XShow struct {
+	stanza.PresExtension
+	XMLName xml.Name `xml:"urn:example:appext:pres show"`
+	Text    string   `xml:",chardata"`
+}
+type c01XStatus struct {
+	stanza.PresExtension
+	XMLName  xml.Name `xml:"urn:example:appext:pres status"`
+	Activity string   `xml:"activity,attr,omitempty"`
+	Text     string   `xml:",chardata"`
+}
+type c01XPriority struct {
+	stanza.PresExtension
+	XMLName xml.Name `xml:"urn:example:appext:pres priority"`
+	Text    string   `xml:",chardata"`
+}
+type c01XPError struct {
+	stanza.PresExtension
+	XMLName xml.Name `xml:"urn:example:appext:pres error"`
+	Code    string   `xml:"code,attr,omitempty"`
+}
+
+func init() {
+	reg := func(k stanza.PacketType, space, local string, v interface{}) {
+		stanza.TypeRegistry.MapExtension(k, xml.Name{Space: c01AppNS + space, Local: local}, v)
+	}
+	reg(stanza.PKTMessage, "rich", "body", c01XBody{})
+	reg(stanza.PKTMessage, "rich", "subject", c01XSubject{})
+	reg(stanza.PKTMessage, "rich", "thread", c01XThread{})
+	reg(stanza.PKTMessage, "app", "error", c01XError{})
+	reg(stanza.PKTPresence, "pres", "show", c01XShow{})
+	reg(stanza.PKTPresence, "pres", "status", c01XStatus{})
+	reg(stanza.PKTPresence, "pres", "priority", c01XPriority{})
+	reg(stanza.PKTPresence, "pres", "error", c01XPError{})
+}
+
 // message / presence extensions and IQ payloads: constructors of empty instances
 var c01MsgExt = map[string]func() interface{}{
 	"oob": func() interface{} { return &stanza.OOB{} }, "rreq": func() interface{} { return &stanza.ReceiptRequest{} },
@@ -224,8 +286,13 @@ var c01MsgExt = map[string]func() interface{}{
 	"inactive": func() interface{} { return &stanza.StateInactive{} }, "paused": func() interface{} { return &stanza.StatePaused{} },
 	"nps": func() interface{} { return &stanza.HintNoPermanentStore{} }, "nostore": func() interface{} { return &stanza.HintNoStore{} },
 	"nocopy": func() interface{} { return &stanza.HintNoCopy{} }, "store": func() interface{} { return &stanza.HintStore{} },
+	"xbody": func() interface{} { return &c01XBody{} }, "xsubject": func() interface{} { return &c01XSubject{} },
+	"xthread": func() interface{} { return &c01XThread{} }, "xerror": func() interface{} { return &c01XError{} },
 }
-var c01PresExt = map[string]func() interface{}{"muc": func() interface{} { return &stanza.MucPresence{} }}
+var c01PresExt = map[string]func() interface{}{"muc": func() interface{} { return &stanza.MucPresence{} },
+	"xshow": func() interface{} { return &c01XShow{} }, "xstatus": func() interface{} { return &c01XStatus{} },
+	"xpriority": func() interface{} { return &c01XPriority{} }, "xperror": func() interface{} { return &c01XPError{} },
+}
 var c01IQPl = map[string]func() stanza.IQPayload{
 	"version": func() stanza.IQPayload { return &stanza.Version{} }, "discoinfo": func() stanza.IQPayload { return &stanza.DiscoInfo{} },
 	"discoitems": func() stanza.IQPayload { return &stanza.DiscoItems{} }, "bind": func() stanza.IQPayload { return &stanza.Bind{} },
@@ -250,7 +317,11 @@ func c01Shape(b []byte) ([]string, bool) {
 					names = append(names, a.Name.Local)
 				}
 			}
-			out = append(out, fmt.Sprintf("%d<%s %s>", depth, tt.Name.Local, strings.Join(names, ",")))
+			local := tt.Name.Local
+			if strings.HasPrefix(tt.Name.Space, c01AppNS) {
+				local = "app:" + local // an application-registered extension: its name is the qualified one
+			}
+			out = append(out, fmt.Sprintf("%d<%s %s>", depth, local, strings.Join(names, ",")))
 			depth++
 		case xml.EndElement:
 			depth--
